@@ -816,8 +816,8 @@ Proof.
     destruct (nth i cn 0 <? 0) eqn:Ec; [vm_compute in Hcode; discriminate|].
     rewrite (nth_strides_of cn stride (length shape)) in Hcode by assumption.
     destruct (bounded_dim isrec isread i) eqn:Eb.
-    + specialize (Hst i Hi eq_refl).
-      destruct (proj1 (start_edge_dim_fits strict _ _ _ _ ltac:(lia)) (conj Hst Hcode))
+    + specialize (Hst i Hi Eb). assert (Hc0 : 0 <= nth i cn 0) by lia.
+      destruct (proj1 (start_edge_dim_fits strict _ _ _ _ Hc0) (conj Hst Hcode))
         as [Hs Hd].
       split; [exact Hs|]. split; [lia|]. split; [apply Hstr; exact Hi|]. intros _. exact Hd.
     + assert (i = 0%nat).
@@ -844,3 +844,585 @@ Corollary check_scs_complete : forall fmt strict isrec isread kind shape numrecs
   fits fmt strict isrec isread shape numrecs st cn stride ->
   check_scs fmt strict isrec isread kind shape numrecs (Some st) (Some cn) stride = NC_NOERR.
 Proof. intros. now apply check_scs_iff_fits_prop. Qed.
+
+(* ================================================================== *)
+(* 8. Which error is reported                                          *)
+(* ================================================================== *)
+Theorem check_scs_null_start : forall fmt strict isrec isread kind shape numrecs count stride,
+  check_scs fmt strict isrec isread kind shape numrecs None count stride = NC_EINVALCOORDS.
+Proof. reflexivity. Qed.
+
+Lemma edge_code_cases isrec isread st cn ts shp :
+  edge_code isrec isread st cn ts shp = NC_NOERR \/
+  edge_code isrec isread st cn ts shp = NC_EEDGE \/
+  edge_code isrec isread st cn ts shp = NC_ENEGATIVECNT.
+Proof.
+  unfold edge_code. destruct (free0 isrec isread); [|apply dims_code_cases].
+  destruct (hd 0 cn <? 0); [now right; right | apply dims_code_cases].
+Qed.
+
+(* NC_EINVALCOORDS is reported exactly when the start phase fails; nothing that is wrong with
+   count or stride can mask it *)
+Theorem check_scs_einvalcoords_iff : forall fmt strict isrec isread kind shape numrecs st count stride,
+  lengths_ok isrec shape st count stride ->
+  (check_scs fmt strict isrec isread kind shape numrecs (Some st) count stride = NC_EINVALCOORDS
+   <-> starts_ok_b fmt strict isrec isread shape numrecs st count = false).
+Proof.
+  intros fmt strict isrec isread kind shape numrecs st count stride Hl.
+  rewrite check_scs_decomp by assumption. unfold phases.
+  destruct (starts_ok_b fmt strict isrec isread shape numrecs st count); [|tauto].
+  split; [|discriminate]. intros H. exfalso.
+  destruct count as [cn|].
+  - cbv zeta in H.
+    destruct (edge_code_cases isrec isread st cn (strides_of cn stride)
+                (shp_of isrec shape numrecs)) as [E|[E|E]]; rewrite E in H; revert H; codes.
+    + unfold stride_code. destruct stride as [t|]; [|vm_compute; discriminate].
+      destruct (existsb (fun x => x <=? 0) t); vm_compute; discriminate.
+    + vm_compute; discriminate.
+    + vm_compute; discriminate.
+  - destruct kind; vm_compute in H; discriminate.
+Qed.
+
+Corollary check_scs_bad_start : forall fmt strict isrec isread kind shape numrecs st count stride,
+  lengths_ok isrec shape st count stride ->
+  starts_ok_b fmt strict isrec isread shape numrecs st count = false ->
+  check_scs fmt strict isrec isread kind shape numrecs (Some st) count stride = NC_EINVALCOORDS.
+Proof. intros. now apply check_scs_einvalcoords_iff. Qed.
+
+(* a negative start in ANY dimension: NC_EINVALCOORDS, whatever else is wrong *)
+Theorem check_scs_neg_start : forall fmt strict isrec isread kind shape numrecs st count stride i,
+  lengths_ok isrec shape st count stride ->
+  (i < length shape)%nat -> nth i st 0 < 0 ->
+  check_scs fmt strict isrec isread kind shape numrecs (Some st) count stride = NC_EINVALCOORDS.
+Proof.
+  intros fmt strict isrec isread kind shape numrecs st count stride i Hl Hi Hneg.
+  apply check_scs_bad_start; [assumption|].
+  destruct (starts_ok_b fmt strict isrec isread shape numrecs st count) eqn:E; [|reflexivity].
+  exfalso.
+  destruct (proj1 (starts_ok_b_nth fmt strict isrec isread shape numrecs st count stride Hl) E)
+    as (H0 & _ & Hst).
+  destruct (bounded_dim isrec isread i) eqn:Eb.
+  - specialize (Hst i Hi Eb). apply start_fits_nonneg in Hst. lia.
+  - unfold bounded_dim in Eb. destruct (free0 isrec isread); [|discriminate].
+    destruct i; [lia | discriminate].
+Qed.
+
+(* a start beyond the end of a bounded dimension: NC_EINVALCOORDS, whatever else is wrong.
+   (Relaxed mode tolerates start = length, but only together with count <= 0.) *)
+Theorem check_scs_start_too_large :
+  forall fmt (strict : bool) isrec isread kind shape numrecs st count stride i,
+  lengths_ok isrec shape st count stride ->
+  (i < length shape)%nat -> bounded_dim isrec isread i = true ->
+  let shp := shp_of isrec shape numrecs in
+  let s := nth i st 0 in let c := nth i (cnt_or1 count shp) 0 in let sh := nth i shp 0 in
+  (if strict then sh <= s else sh < s \/ (s = sh /\ 0 < c)) ->
+  check_scs fmt strict isrec isread kind shape numrecs (Some st) count stride = NC_EINVALCOORDS.
+Proof.
+  intros fmt strict isrec isread kind shape numrecs st count stride i Hl Hi Hb shp s c sh Hbig.
+  apply check_scs_bad_start; [assumption|].
+  destruct (starts_ok_b fmt strict isrec isread shape numrecs st count) eqn:E; [|reflexivity].
+  exfalso.
+  destruct (proj1 (starts_ok_b_nth fmt strict isrec isread shape numrecs st count stride Hl) E)
+    as (_ & _ & Hst).
+  specialize (Hst i Hi Hb). fold shp in Hst. fold s c sh in Hst.
+  unfold start_fits in Hst. destruct strict; lia.
+Qed.
+
+(* NULL count with valid starts: accepted for the var1 form only *)
+Theorem check_scs_null_count : forall fmt strict isrec isread kind shape numrecs st stride,
+  lengths_ok isrec shape st None stride ->
+  starts_ok_b fmt strict isrec isread shape numrecs st None = true ->
+  check_scs fmt strict isrec isread kind shape numrecs (Some st) None stride =
+  match kind with API_VAR1 => NC_NOERR | _ => NC_EEDGE end.
+Proof.
+  intros fmt strict isrec isread kind shape numrecs st stride Hl Hs.
+  rewrite check_scs_decomp by assumption. unfold phases. rewrite Hs. reflexivity.
+Qed.
+
+(* the code of dimension i in the count/edge phase, with the stride read from the request *)
+Definition code_at_s (isrec isread : bool) (st cn : list Z) (stride : option (list Z))
+           (shp : list Z) (i : nat) : Z :=
+  if nth i cn 0 <? 0 then NC_ENEGATIVECNT
+  else if bounded_dim isrec isread i
+       then check_EEDGE (nth i st 0) (nth i cn 0) (option_map (fun t => nth i t 0) stride)
+                        (nth i shp 0)
+       else NC_NOERR.
+
+Lemma free0_pos isrec isread (shape : list Z) :
+  (isrec = true -> shape <> []) -> free0 isrec isread = true -> (0 < length shape)%nat.
+Proof.
+  intros Hne Hf. unfold free0 in Hf. destruct isrec; [|discriminate].
+  destruct shape; [exfalso; now apply Hne | cbn [length]; lia].
+Qed.
+
+Lemma edge_code_seq_s isrec isread shape numrecs st cn stride :
+  lengths_ok isrec shape st (Some cn) stride ->
+  let shp := shp_of isrec shape numrecs in
+  edge_code isrec isread st cn (strides_of cn stride) shp =
+  first_err (map (code_at_s isrec isread st cn stride shp) (seq 0 (length shape))).
+Proof.
+  intros (Hne & Hls & Hlc & Hlt) shp.
+  pose proof (shp_of_length isrec shape numrecs Hne) as Hlshp.
+  pose proof (strides_of_length cn stride (length shape) Hlc Hlt) as Hlts.
+  rewrite (edge_code_seq isrec isread (length shape)); try assumption;
+    [|apply free0_pos; assumption].
+  f_equal. apply map_ext_in. intros i Hi. apply in_seq in Hi.
+  unfold code_at, code_at_s. rewrite (nth_strides_of cn stride (length shape)) by (try assumption; lia).
+  reflexivity.
+Qed.
+
+(* FIRST ERROR of the count/edge phase: with valid starts, the code of the first dimension that
+   has one is the result *)
+Theorem check_scs_first_bad_dim :
+  forall fmt strict isrec isread kind shape numrecs st cn stride i,
+  lengths_ok isrec shape st (Some cn) stride ->
+  starts_ok_b fmt strict isrec isread shape numrecs st (Some cn) = true ->
+  let shp := shp_of isrec shape numrecs in
+  (i < length shape)%nat ->
+  (forall j, (j < i)%nat -> code_at_s isrec isread st cn stride shp j = NC_NOERR) ->
+  code_at_s isrec isread st cn stride shp i <> NC_NOERR ->
+  check_scs fmt strict isrec isread kind shape numrecs (Some st) (Some cn) stride =
+  code_at_s isrec isread st cn stride shp i.
+Proof.
+  intros fmt strict isrec isread kind shape numrecs st cn stride i Hl Hs shp Hi Hpre Hbad.
+  rewrite check_scs_decomp by assumption. unfold phases. rewrite Hs. cbv zeta.
+  rewrite (edge_code_seq_s isrec isread shape numrecs st cn stride Hl). fold shp.
+  rewrite (first_err_first_bad _ (length shape) 0 i); try assumption; try lia.
+  - apply Z.eqb_neq in Hbad. now rewrite Hbad.
+  - intros j Hj. apply Hpre. lia.
+Qed.
+
+(* how to discharge the "earlier dimensions are fine" hypothesis *)
+Lemma code_at_s_fits isrec isread st cn stride shp j :
+  0 <= nth j st 0 -> 0 <= nth j cn 0 ->
+  (bounded_dim isrec isread j = true ->
+   edge_fits (nth j st 0) (nth j cn 0) (option_map (fun t => nth j t 0) stride) (nth j shp 0)
+   = true) ->
+  code_at_s isrec isread st cn stride shp j = NC_NOERR.
+Proof.
+  intros Hs Hc Hb. unfold code_at_s. replace (nth j cn 0 <? 0) with false by lia.
+  destruct (bounded_dim isrec isread j); [|reflexivity]. specialize (Hb eq_refl).
+  apply (dim_code_fits _ _ _ _ Hs) in Hb. unfold dim_code in Hb.
+  replace (nth j cn 0 <? 0) with false in Hb by lia. exact Hb.
+Qed.
+
+(* a negative count, with valid starts and nothing wrong in an earlier dimension *)
+Theorem check_scs_neg_count :
+  forall fmt strict isrec isread kind shape numrecs st cn stride i,
+  lengths_ok isrec shape st (Some cn) stride ->
+  starts_ok_b fmt strict isrec isread shape numrecs st (Some cn) = true ->
+  (i < length shape)%nat ->
+  (forall j, (j < i)%nat ->
+     code_at_s isrec isread st cn stride (shp_of isrec shape numrecs) j = NC_NOERR) ->
+  nth i cn 0 < 0 ->
+  check_scs fmt strict isrec isread kind shape numrecs (Some st) (Some cn) stride =
+  NC_ENEGATIVECNT.
+Proof.
+  intros fmt strict isrec isread kind shape numrecs st cn stride i Hl Hs Hi Hpre Hneg.
+  assert (E : code_at_s isrec isread st cn stride (shp_of isrec shape numrecs) i = NC_ENEGATIVECNT)
+    by (unfold code_at_s; replace (nth i cn 0 <? 0) with true by lia; reflexivity).
+  rewrite <- E. apply check_scs_first_bad_dim; try assumption.
+  rewrite E. vm_compute. discriminate.
+Qed.
+
+(* a count that runs over the end of a bounded dimension *)
+Theorem check_scs_count_too_large :
+  forall fmt strict isrec isread kind shape numrecs st cn stride i,
+  lengths_ok isrec shape st (Some cn) stride ->
+  starts_ok_b fmt strict isrec isread shape numrecs st (Some cn) = true ->
+  (i < length shape)%nat -> bounded_dim isrec isread i = true ->
+  (forall j, (j < i)%nat ->
+     code_at_s isrec isread st cn stride (shp_of isrec shape numrecs) j = NC_NOERR) ->
+  0 <= nth i cn 0 ->
+  nth i (shp_of isrec shape numrecs) 0 < nth i st 0 + nth i cn 0 ->
+  check_scs fmt strict isrec isread kind shape numrecs (Some st) (Some cn) stride = NC_EEDGE.
+Proof.
+  intros fmt strict isrec isread kind shape numrecs st cn stride i Hl Hs Hi Hb Hpre Hc Hbig.
+  assert (E : code_at_s isrec isread st cn stride (shp_of isrec shape numrecs) i = NC_EEDGE).
+  { unfold code_at_s. replace (nth i cn 0 <? 0) with false by lia. rewrite Hb.
+    unfold check_EEDGE.
+    replace ((nth i cn 0 >? nth i (shp_of isrec shape numrecs) 0)
+             || (nth i st 0 + nth i cn 0 >? nth i (shp_of isrec shape numrecs) 0))
+      with true by lia. reflexivity. }
+  rewrite <- E. apply check_scs_first_bad_dim; try assumption.
+  rewrite E. vm_compute. discriminate.
+Qed.
+
+(* start + count fits but the last strided index does not *)
+Theorem check_scs_stride_reach :
+  forall fmt strict isrec isread kind shape numrecs st cn t i,
+  lengths_ok isrec shape st (Some cn) (Some t) ->
+  starts_ok_b fmt strict isrec isread shape numrecs st (Some cn) = true ->
+  (i < length shape)%nat -> bounded_dim isrec isread i = true ->
+  (forall j, (j < i)%nat ->
+     code_at_s isrec isread st cn (Some t) (shp_of isrec shape numrecs) j = NC_NOERR) ->
+  0 < nth i cn 0 ->
+  nth i (shp_of isrec shape numrecs) 0 <= nth i st 0 + (nth i cn 0 - 1) * nth i t 0 ->
+  check_scs fmt strict isrec isread kind shape numrecs (Some st) (Some cn) (Some t) = NC_EEDGE.
+Proof.
+  intros fmt strict isrec isread kind shape numrecs st cn t i Hl Hs Hi Hb Hpre Hc Hbig.
+  assert (E : code_at_s isrec isread st cn (Some t) (shp_of isrec shape numrecs) i = NC_EEDGE).
+  { unfold code_at_s. replace (nth i cn 0 <? 0) with false by lia. rewrite Hb.
+    cbn [option_map]. unfold check_EEDGE.
+    destruct ((nth i cn 0 >? nth i (shp_of isrec shape numrecs) 0)
+              || (nth i st 0 + nth i cn 0 >? nth i (shp_of isrec shape numrecs) 0));
+      [reflexivity|].
+    replace ((nth i cn 0 >? 0)
+             && (nth i st 0 + (nth i cn 0 - 1) * nth i t 0 >=?
+                 nth i (shp_of isrec shape numrecs) 0)) with true by lia.
+    reflexivity. }
+  rewrite <- E. apply check_scs_first_bad_dim; try assumption.
+  rewrite E. vm_compute. discriminate.
+Qed.
+
+(* a stride <= 0 is reported last: only when starts, counts and edges are all fine *)
+Theorem check_scs_bad_stride :
+  forall fmt strict isrec isread kind shape numrecs st cn t i,
+  lengths_ok isrec shape st (Some cn) (Some t) ->
+  starts_ok_b fmt strict isrec isread shape numrecs st (Some cn) = true ->
+  (forall j, (j < length shape)%nat ->
+     code_at_s isrec isread st cn (Some t) (shp_of isrec shape numrecs) j = NC_NOERR) ->
+  (i < length shape)%nat -> nth i t 0 <= 0 ->
+  check_scs fmt strict isrec isread kind shape numrecs (Some st) (Some cn) (Some t) = NC_ESTRIDE.
+Proof.
+  intros fmt strict isrec isread kind shape numrecs st cn t i Hl Hs Hall Hi Hbad.
+  pose proof Hl as (Hne & Hls & Hlc & Hlt).
+  rewrite check_scs_decomp by assumption. unfold phases. rewrite Hs. cbv zeta.
+  rewrite (edge_code_seq_s isrec isread shape numrecs st cn (Some t) Hl).
+  rewrite (proj2 (first_err_all_noerr _ (length shape) 0)) by (intros j Hj; apply Hall; lia).
+  codes. unfold stride_code.
+  replace (existsb (fun x => x <=? 0) t) with true; [reflexivity|].
+  symmetry. apply existsb_exists. exists (nth i t 0). split; [apply nth_In; lia | lia].
+Qed.
+
+(* ================================================================== *)
+(* 9. One perturbation of an accepted request at a time                *)
+(* ================================================================== *)
+Fixpoint set_nth {A} (i : nat) (v : A) (l : list A) {struct l} : list A :=
+  match l with
+  | [] => []
+  | x :: r => match i with O => v :: r | S k => x :: set_nth k v r end
+  end.
+
+Lemma length_set_nth {A} (v : A) : forall l i, length (set_nth i v l) = length l.
+Proof. induction l as [|x r IH]; intros i; [reflexivity|]. destruct i; cbn [set_nth length]; auto. Qed.
+
+Lemma nth_set_nth_eq {A} (v d : A) : forall l i, (i < length l)%nat -> nth i (set_nth i v l) d = v.
+Proof.
+  induction l as [|x r IH]; intros i Hi; [cbn [length] in Hi; lia|].
+  destruct i; cbn [set_nth nth]; [reflexivity|]. apply IH. cbn [length] in Hi. lia.
+Qed.
+
+Lemma nth_set_nth_neq {A} (v d : A) : forall l i j, i <> j -> nth j (set_nth i v l) d = nth j l d.
+Proof.
+  induction l as [|x r IH]; intros i j Hne; [reflexivity|].
+  destruct i; destruct j; cbn [set_nth nth]; try reflexivity; [lia|]. apply IH. lia.
+Qed.
+
+Lemma accepted_phases fmt strict isrec isread kind shape numrecs st cn stride :
+  lengths_ok isrec shape st (Some cn) stride ->
+  check_scs fmt strict isrec isread kind shape numrecs (Some st) (Some cn) stride = NC_NOERR ->
+  starts_ok_b fmt strict isrec isread shape numrecs st (Some cn) = true /\
+  (forall j, (j < length shape)%nat ->
+     code_at_s isrec isread st cn stride (shp_of isrec shape numrecs) j = NC_NOERR) /\
+  stride_code stride = NC_NOERR.
+Proof.
+  intros Hl H. rewrite check_scs_decomp in H by assumption. apply phases_noerr in H.
+  destruct H as [Hs [He Hst]]. split; [exact Hs|]. split; [|exact Hst].
+  rewrite (edge_code_seq_s isrec isread shape numrecs st cn stride Hl) in He.
+  intros j Hj. apply (proj1 (first_err_all_noerr _ _ _) He). lia.
+Qed.
+
+(* the start phase looks at a count only to see whether it is positive where start = length *)
+Lemma starts_ok_b_count_change fmt strict isrec isread shape numrecs st cn cn' stride :
+  lengths_ok isrec shape st (Some cn) stride -> length cn' = length shape ->
+  starts_ok_b fmt strict isrec isread shape numrecs st (Some cn) = true ->
+  (forall j, (j < length shape)%nat -> bounded_dim isrec isread j = true -> 0 < nth j cn' 0 ->
+     0 < nth j cn 0 \/ nth j st 0 < nth j (shp_of isrec shape numrecs) 0) ->
+  starts_ok_b fmt strict isrec isread shape numrecs st (Some cn') = true.
+Proof.
+  intros Hl Hl' Hs Hch.
+  assert (Hl2 : lengths_ok isrec shape st (Some cn') stride).
+  { destruct Hl as (H1 & H2 & H3 & H4). repeat split; assumption. }
+  destruct (proj1 (starts_ok_b_nth fmt strict isrec isread shape numrecs st (Some cn) stride Hl) Hs)
+    as (H0 & Hmax & Hst).
+  apply (starts_ok_b_nth fmt strict isrec isread shape numrecs st (Some cn') stride Hl2).
+  split; [exact H0|]. split; [exact Hmax|]. intros j Hj Hb.
+  specialize (Hst j Hj Hb). specialize (Hch j Hj Hb). cbn [cnt_or1] in *.
+  unfold start_fits in *. destruct strict; lia.
+Qed.
+
+Theorem perturb_neg_start : forall fmt strict isrec isread kind shape numrecs st count stride i v,
+  lengths_ok isrec shape st count stride -> (i < length shape)%nat -> v < 0 ->
+  check_scs fmt strict isrec isread kind shape numrecs (Some (set_nth i v st)) count stride =
+  NC_EINVALCOORDS.
+Proof.
+  intros fmt strict isrec isread kind shape numrecs st count stride i v (H1 & H2 & H3 & H4) Hi Hv.
+  apply (check_scs_neg_start _ _ _ _ _ _ _ _ _ _ i).
+  - repeat split; try assumption. now rewrite length_set_nth.
+  - exact Hi.
+  - rewrite nth_set_nth_eq by lia. exact Hv.
+Qed.
+
+Theorem perturb_start_too_large :
+  forall fmt (strict : bool) isrec isread kind shape numrecs st count stride i v,
+  lengths_ok isrec shape st count stride -> (i < length shape)%nat ->
+  bounded_dim isrec isread i = true ->
+  (if strict then nth i (shp_of isrec shape numrecs) 0 <= v
+   else nth i (shp_of isrec shape numrecs) 0 < v) ->
+  check_scs fmt strict isrec isread kind shape numrecs (Some (set_nth i v st)) count stride =
+  NC_EINVALCOORDS.
+Proof.
+  intros fmt strict isrec isread kind shape numrecs st count stride i v (H1 & H2 & H3 & H4) Hi Hb Hv.
+  apply (check_scs_start_too_large _ _ _ _ _ _ _ _ _ _ i).
+  - repeat split; try assumption. now rewrite length_set_nth.
+  - exact Hi.
+  - exact Hb.
+  - rewrite nth_set_nth_eq by lia. destruct strict; [exact Hv | left; exact Hv].
+Qed.
+
+Lemma code_at_s_set_count isrec isread st cn stride shp i v j : i <> j ->
+  code_at_s isrec isread st (set_nth i v cn) stride shp j = code_at_s isrec isread st cn stride shp j.
+Proof. intros Hne. unfold code_at_s. rewrite nth_set_nth_neq by assumption. reflexivity. Qed.
+
+Theorem perturb_neg_count : forall fmt strict isrec isread kind shape numrecs st cn stride i v,
+  lengths_ok isrec shape st (Some cn) stride ->
+  check_scs fmt strict isrec isread kind shape numrecs (Some st) (Some cn) stride = NC_NOERR ->
+  (i < length shape)%nat -> v < 0 ->
+  check_scs fmt strict isrec isread kind shape numrecs (Some st) (Some (set_nth i v cn)) stride =
+  NC_ENEGATIVECNT.
+Proof.
+  intros fmt strict isrec isread kind shape numrecs st cn stride i v Hl Hacc Hi Hv.
+  destruct (accepted_phases _ _ _ _ _ _ _ _ _ _ Hl Hacc) as (Hs & Hcodes & _).
+  pose proof Hl as (H1 & H2 & H3 & H4).
+  apply (check_scs_neg_count _ _ _ _ _ _ _ _ _ _ i).
+  - repeat split; try assumption. now rewrite length_set_nth.
+  - apply (starts_ok_b_count_change _ _ _ _ _ _ _ cn _ stride); try assumption.
+    + now rewrite length_set_nth.
+    + intros j Hj Hb Hpos. destruct (Nat.eq_dec i j) as [<-|Hne].
+      * rewrite nth_set_nth_eq in Hpos by lia. lia.
+      * rewrite nth_set_nth_neq in Hpos by assumption. left. exact Hpos.
+  - exact Hi.
+  - intros j Hj. rewrite code_at_s_set_count by lia. apply Hcodes. lia.
+  - rewrite nth_set_nth_eq by lia. exact Hv.
+Qed.
+
+(* start strictly inside, count enlarged beyond the end.  (With start = length, which relaxed
+   mode accepts for count = 0, a positive count gives NC_EINVALCOORDS instead:
+   perturb_count_at_end.) *)
+Theorem perturb_count_too_large :
+  forall fmt strict isrec isread kind shape numrecs st cn stride i v,
+  lengths_ok isrec shape st (Some cn) stride ->
+  check_scs fmt strict isrec isread kind shape numrecs (Some st) (Some cn) stride = NC_NOERR ->
+  (i < length shape)%nat -> bounded_dim isrec isread i = true ->
+  nth i st 0 < nth i (shp_of isrec shape numrecs) 0 ->
+  nth i (shp_of isrec shape numrecs) 0 < nth i st 0 + v ->
+  check_scs fmt strict isrec isread kind shape numrecs (Some st) (Some (set_nth i v cn)) stride =
+  NC_EEDGE.
+Proof.
+  intros fmt strict isrec isread kind shape numrecs st cn stride i v Hl Hacc Hi Hb Hin Hv.
+  destruct (accepted_phases _ _ _ _ _ _ _ _ _ _ Hl Hacc) as (Hs & Hcodes & _).
+  pose proof Hl as (H1 & H2 & H3 & H4).
+  apply (check_scs_count_too_large _ _ _ _ _ _ _ _ _ _ i).
+  - repeat split; try assumption. now rewrite length_set_nth.
+  - apply (starts_ok_b_count_change _ _ _ _ _ _ _ cn _ stride); try assumption.
+    + now rewrite length_set_nth.
+    + intros j Hj Hbj Hpos. destruct (Nat.eq_dec i j) as [<-|Hne].
+      * right. exact Hin.
+      * rewrite nth_set_nth_neq in Hpos by assumption. left. exact Hpos.
+  - exact Hi.
+  - exact Hb.
+  - intros j Hj. rewrite code_at_s_set_count by lia. apply Hcodes. lia.
+  - rewrite nth_set_nth_eq by lia. lia.
+  - rewrite nth_set_nth_eq by lia. exact Hv.
+Qed.
+
+Theorem perturb_count_at_end :
+  forall fmt isrec isread kind shape numrecs st cn stride i v,
+  lengths_ok isrec shape st (Some cn) stride ->
+  (i < length shape)%nat -> bounded_dim isrec isread i = true ->
+  nth i st 0 = nth i (shp_of isrec shape numrecs) 0 -> 0 < v ->
+  check_scs fmt false isrec isread kind shape numrecs (Some st) (Some (set_nth i v cn)) stride =
+  NC_EINVALCOORDS.
+Proof.
+  intros fmt isrec isread kind shape numrecs st cn stride i v (H1 & H2 & H3 & H4) Hi Hb He Hv.
+  apply (check_scs_start_too_large _ false _ _ _ _ _ _ _ _ i).
+  - repeat split; try assumption. now rewrite length_set_nth.
+  - exact Hi.
+  - exact Hb.
+  - cbn [cnt_or1]. rewrite nth_set_nth_eq by lia. right. split; [exact He | exact Hv].
+Qed.
+
+(* a stride <= 0 in an otherwise accepted request never trips the edge check first *)
+Theorem perturb_bad_stride : forall fmt strict isrec isread kind shape numrecs st cn t i v,
+  lengths_ok isrec shape st (Some cn) (Some t) ->
+  check_scs fmt strict isrec isread kind shape numrecs (Some st) (Some cn) (Some t) = NC_NOERR ->
+  (i < length shape)%nat -> v <= 0 ->
+  check_scs fmt strict isrec isread kind shape numrecs (Some st) (Some cn)
+            (Some (set_nth i v t)) = NC_ESTRIDE.
+Proof.
+  intros fmt strict isrec isread kind shape numrecs st cn t i v Hl Hacc Hi Hv.
+  destruct (accepted_phases _ _ _ _ _ _ _ _ _ _ Hl Hacc) as (Hs & Hcodes & _).
+  pose proof Hl as (H1 & H2 & H3 & H4).
+  destruct (proj1 (starts_ok_b_nth fmt strict isrec isread shape numrecs st (Some cn) (Some t) Hl) Hs)
+    as (_ & _ & Hst).
+  assert (Hl' : lengths_ok isrec shape st (Some cn) (Some (set_nth i v t))).
+  { repeat split; try assumption. now rewrite length_set_nth. }
+  apply (check_scs_bad_stride _ _ _ _ _ _ _ _ _ _ i); try assumption.
+  - intros j Hj. specialize (Hcodes j Hj). unfold code_at_s in *. cbn [option_map] in *.
+    destruct (nth j cn 0 <? 0) eqn:Ec; [exact Hcodes|].
+    destruct (bounded_dim isrec isread j) eqn:Eb; [|reflexivity].
+    destruct (Nat.eq_dec i j) as [<-|Hne]; [|rewrite nth_set_nth_neq by assumption; exact Hcodes].
+    rewrite nth_set_nth_eq by lia.
+    specialize (Hst i Hi Eb). cbn [cnt_or1] in Hst.
+    pose proof (start_fits_nonneg _ _ _ _ Hst) as Hs0.
+    apply check_EEDGE_ok in Hcodes. destruct Hcodes as [He _].
+    unfold check_EEDGE.
+    replace ((nth i cn 0 >? nth i (shp_of isrec shape numrecs) 0)
+             || (nth i st 0 + nth i cn 0 >? nth i (shp_of isrec shape numrecs) 0))
+      with false by lia.
+    destruct (nth i cn 0 >? 0) eqn:Ep; [|reflexivity].
+    assert (Hlt : nth i st 0 < nth i (shp_of isrec shape numrecs) 0)
+      by (unfold start_fits in Hst; destruct strict; lia).
+    assert (Hm : (nth i cn 0 - 1) * v <= 0) by nia.
+    replace (nth i st 0 + (nth i cn 0 - 1) * v >=? nth i (shp_of isrec shape numrecs) 0)
+      with false by lia.
+    reflexivity.
+  - rewrite nth_set_nth_eq by lia. exact Hv.
+Qed.
+
+(* ================================================================== *)
+(* 10. Examples                                                        *)
+(* ================================================================== *)
+(* a 3-D record variable (unlimited x 3 x 4) with 5 records, CDF-2, relaxed mode, strided read *)
+Definition ex_shape : list Z := [0; 3; 4].
+Definition ex_st : list Z := [1; 0; 1].
+Definition ex_cn : list Z := [2; 3; 2].
+Definition ex_sd : list Z := [2; 1; 2].
+
+Example ex_lengths : lengths_ok true ex_shape ex_st (Some ex_cn) (Some ex_sd).
+Proof. repeat split; try reflexivity. intros _. discriminate. Qed.
+
+Example ex_accept :
+  check_scs 2 false true true API_VARS ex_shape 5 (Some ex_st) (Some ex_cn) (Some ex_sd) = NC_NOERR
+  /\ fits_b 2 false true true API_VARS ex_shape 5 (Some ex_st) (Some ex_cn) (Some ex_sd) = true.
+Proof. vm_compute. split; reflexivity. Qed.
+
+(* the same by the completeness theorem, from the dimension-by-dimension predicate *)
+Example ex_accept_by_theorem :
+  check_scs 2 false true true API_VARS ex_shape 5 (Some ex_st) (Some ex_cn) (Some ex_sd) = NC_NOERR.
+Proof.
+  apply check_scs_complete; [exact ex_lengths|].
+  split; [intros _ _; vm_compute; discriminate|].
+  intros i Hi. unfold ex_shape in Hi. cbn [length] in Hi.
+  destruct i as [|[|[|i]]]; [| | |lia];
+    (cbn [nth ex_st ex_cn ex_sd ex_shape shp_of tl option_map]; unfold dim_fits;
+     repeat split; try lia; intros _; repeat split; try lia).
+Qed.
+
+(* a write may start beyond the current number of records; a read may not *)
+Example ex_write_beyond :
+  check_scs 2 false true false API_VARA ex_shape 5 (Some [7; 0; 0]) (Some [3; 3; 4]) None = NC_NOERR /\
+  check_scs 2 false true true API_VARA ex_shape 5 (Some [7; 0; 0]) (Some [3; 3; 4]) None
+  = NC_EINVALCOORDS /\
+  check_scs 2 false true true API_VARA ex_shape 5 (Some [4; 0; 0]) (Some [3; 3; 4]) None = NC_EEDGE.
+Proof. vm_compute. repeat split; reflexivity. Qed.
+
+(* the perturbation theorems applied to the accepted request ... *)
+Example ex_perturb :
+  check_scs 2 false true true API_VARS ex_shape 5 (Some (set_nth 2 (-1) ex_st)) (Some ex_cn)
+            (Some ex_sd) = NC_EINVALCOORDS /\
+  check_scs 2 false true true API_VARS ex_shape 5 (Some (set_nth 1 4 ex_st)) (Some ex_cn)
+            (Some ex_sd) = NC_EINVALCOORDS /\
+  check_scs 2 false true true API_VARS ex_shape 5 (Some ex_st) (Some (set_nth 1 (-3) ex_cn))
+            (Some ex_sd) = NC_ENEGATIVECNT /\
+  check_scs 2 false true true API_VARS ex_shape 5 (Some ex_st) (Some (set_nth 2 4 ex_cn))
+            (Some ex_sd) = NC_EEDGE /\
+  check_scs 2 false true true API_VARS ex_shape 5 (Some ex_st) (Some ex_cn)
+            (Some (set_nth 0 0 ex_sd)) = NC_ESTRIDE.
+Proof.
+  pose proof ex_lengths as Hl. destruct ex_accept as [Hacc _].
+  split; [|split; [|split; [|split]]].
+  - apply perturb_neg_start; [exact Hl | cbn; lia | lia].
+  - apply perturb_start_too_large; [exact Hl | cbn; lia | reflexivity | vm_compute; reflexivity].
+  - apply perturb_neg_count; [exact Hl | exact Hacc | cbn; lia | lia].
+  - apply perturb_count_too_large;
+      [exact Hl | exact Hacc | cbn; lia | reflexivity | vm_compute; reflexivity
+       | vm_compute; reflexivity].
+  - apply perturb_bad_stride; [exact Hl | exact Hacc | cbn; lia | lia].
+Qed.
+
+(* ... and cross-checked by evaluation *)
+Example ex_perturb_compute :
+  map (fun r => check_scs 2 false true true API_VARS ex_shape 5 (Some (fst (fst r)))
+                          (Some (snd (fst r))) (Some (snd r)))
+      [ ([1; 0; -1], ex_cn, ex_sd); ([1; 4; 1], ex_cn, ex_sd); (ex_st, [2; -3; 2], ex_sd);
+        (ex_st, [2; 3; 4], ex_sd); (ex_st, ex_cn, [0; 1; 2]); (ex_st, [2; 3; 2], [4; 1; 2]) ]
+  = [NC_EINVALCOORDS; NC_EINVALCOORDS; NC_ENEGATIVECNT; NC_EEDGE; NC_ESTRIDE; NC_EEDGE].
+Proof. vm_compute. reflexivity. Qed.
+
+(* precedence: a bad start masks everything; the first bad dimension decides between
+   NC_ENEGATIVECNT and NC_EEDGE; a bad stride shows only when all the rest is fine *)
+Example ex_precedence :
+  check_scs 2 false true true API_VARS ex_shape 5 (Some [1; 0; -1]) (Some [-2; 9; 2])
+            (Some [0; 1; 2]) = NC_EINVALCOORDS /\
+  check_scs 2 false true true API_VARS ex_shape 5 (Some ex_st) (Some [2; 9; -2])
+            (Some [0; 1; 2]) = NC_EEDGE /\
+  check_scs 2 false true true API_VARS ex_shape 5 (Some ex_st) (Some [2; -9; 9])
+            (Some [0; 1; 2]) = NC_ENEGATIVECNT.
+Proof. vm_compute. repeat split; reflexivity. Qed.
+
+(* corners of the model:
+   - relaxed mode accepts start = length only with count = 0; strict mode never;
+   - reading a record variable that has no records: the special case (numrecs = 0, count > 0)
+     only turns the code into NC_EINVALCOORDS, acceptance is unchanged; a zero-length read at
+     record 0 is accepted in relaxed mode and rejected in strict mode;
+   - a negative count at start = length passes the start phase: NC_ENEGATIVECNT;
+   - the CDF-1/2 limit on the record index does not apply to CDF-5;
+   - NULL count: var1 only, and the stride is not looked at *)
+Example ex_corners :
+  check_scs 5 false false true API_VARA [4; 5] 0 (Some [4; 0]) (Some [0; 5]) None = NC_NOERR /\
+  check_scs 5 true false true API_VARA [4; 5] 0 (Some [4; 0]) (Some [0; 5]) None = NC_EINVALCOORDS /\
+  check_scs 5 false false true API_VARA [4; 5] 0 (Some [4; 0]) (Some [1; 5]) None = NC_EINVALCOORDS /\
+  check_scs 5 false true true API_VARA [0; 5] 0 (Some [0; 0]) (Some [1; 5]) None = NC_EINVALCOORDS /\
+  check_scs 5 false true true API_VARA [0; 5] 0 (Some [0; 0]) (Some [0; 5]) None = NC_NOERR /\
+  check_scs 5 true true true API_VARA [0; 5] 0 (Some [0; 0]) (Some [0; 5]) None = NC_EINVALCOORDS /\
+  check_scs 5 false false true API_VARA [4; 5] 0 (Some [4; 0]) (Some [-1; 5]) None = NC_ENEGATIVECNT /\
+  check_scs 2 false true false API_VARA [0; 5] 0 (Some [4294967296; 0]) (Some [1; 5]) None
+  = NC_EINVALCOORDS /\
+  check_scs 5 false true false API_VARA [0; 5] 0 (Some [4294967296; 0]) (Some [1; 5]) None = NC_NOERR /\
+  check_scs 5 false false true API_VAR1 [4; 5] 0 (Some [3; 4]) None (Some [0; -1]) = NC_NOERR /\
+  check_scs 5 false false true API_VARA [4; 5] 0 (Some [3; 4]) None None = NC_EEDGE.
+Proof. vm_compute. repeat split; reflexivity. Qed.
+
+(* soundness (Proofs_Access.check_scs_req_ok) and completeness meet: for a request with start,
+   count and stride given, acceptance implies req_ok *)
+Example ex_sound_and_complete :
+  fits 2 false true true ex_shape 5 ex_st ex_cn (Some ex_sd) /\
+  req_ok ex_shape ex_st ex_cn ex_sd.
+Proof.
+  destruct ex_accept as [Hacc _]. split.
+  - apply (check_scs_iff_fits_prop 2 false true true API_VARS); [exact ex_lengths | exact Hacc].
+  - apply (check_scs_req_ok 2 false true API_VARS ex_shape 5 ex_st ex_cn (Some ex_sd));
+      try reflexivity.
+Qed.
+
+Print Assumptions check_scs_decomp.
+Print Assumptions check_scs_iff_fits.
+Print Assumptions check_scs_iff_fits_prop.
+Print Assumptions check_scs_complete.
+Print Assumptions check_scs_codes.
+Print Assumptions check_scs_einvalcoords_iff.
+Print Assumptions check_scs_neg_start.
+Print Assumptions check_scs_start_too_large.
+Print Assumptions check_scs_first_bad_dim.
+Print Assumptions check_scs_neg_count.
+Print Assumptions check_scs_count_too_large.
+Print Assumptions check_scs_stride_reach.
+Print Assumptions check_scs_bad_stride.
+Print Assumptions perturb_neg_start.
+Print Assumptions perturb_start_too_large.
+Print Assumptions perturb_neg_count.
+Print Assumptions perturb_count_too_large.
+Print Assumptions perturb_count_at_end.
+Print Assumptions perturb_bad_stride.
